@@ -1,7 +1,7 @@
 (* Executable comparison functions for the C06 correspondence.  The harness writes what /repo did
    (OPA on the embedded bundle for the helpers, linter.Lint for the end-to-end cases) as data; these
    functions compare it with Model/Directive.v.  No theorems here. *)
-From Regal Require Export Model.Directive.
+From Regal Require Export Model.Directive Model.AggPipeline Model.AggCache.
 
 Fixpoint failing {A} (p : A -> bool) (i : nat) (l : list A) {struct l} : list nat :=
   match l with
@@ -210,7 +210,66 @@ Definition files_results (fs : list (str * list comment)) : option (list (str * 
 Definition agg_agrees (c : agg_case) : bool :=
   match files_results (a_own c), files_results (a_given c) with
   | Some own, Some given =>
-      let g := carry_overridden (carry own) (carry given) in
+      let g := dirs_update (carry given) (carry own) in   (* Lint: provided map, overwritten by the run's own files *)
       same_violations (agg_report_filter (a_raw c) g) (a_obs c)
   | _, _ => false
   end.
+
+(* maps file -> (row key -> names) compared as maps: same files (an entry with no directives is an entry), and for
+   every file the same row keys with the same names *)
+Definition strmap_sub (a b : strmap) : bool :=
+  forallb (fun kv => existsb (fun kv' => str_eqb (fst kv) (fst kv') && names_eqb (snd kv) (snd kv')) b) a.
+Definition strmap_same (a b : strmap) : bool := strmap_sub a b && strmap_sub b a.
+Definition gomap_sub (a b : gomap) : bool :=
+  forallb (fun fo => match gm_get b (fst fo) with Some o => strmap_same (snd fo) o | None => false end) a.
+Definition gomap_same (a b : gomap) : bool := gomap_sub a b && gomap_sub b a.
+
+(* ---- histories through the public API: directives handed from run to run (Model/AggCache.v, the api functions) ----
+   The client lints [h_init] in one run with export, then re-lints one file at a time ([h_edits], in order) and
+   updates ONE directive map from every run's Report.IgnoreDirectives.  Observed after the last edit: either a
+   report-only run handed that map, or ([h_mixed]) the last re-lint done by the reporting run itself, which is
+   handed the map as it was before (stale for the re-linted file). *)
+Record hist_case := {
+  h_init : list (str * list comment);
+  h_edits : list (str * list comment);
+  h_mixed : bool;
+  h_export : gomap;            (* Report.IgnoreDirectives of the last run that linted files, as observed *)
+  h_raw : list violation;      (* aggregate violations of the final contents with every marker defused *)
+  h_obs : list violation }.
+
+Definition HFile : Type := (str * list comment)%type.
+
+Fixpoint last_opt {A} (l : list A) {struct l} : option A :=
+  match l with
+  | [] => None
+  | [x] => Some x
+  | _ :: l' => last_opt l'
+  end.
+
+Definition no_conflicts (fs : list HFile) : bool :=
+  forallb (fun f => negb (dir_conflict (directive_entries (snd f)))) fs.
+
+Definition hist_dirs (c : hist_case) : gomap :=
+  if h_mixed c then
+    match last_opt (h_edits c) with
+    | Some f => lint_dirs HFile fst snd (snd (api_history HFile fst snd (h_init c) (removelast (h_edits c)))) [f]
+    | None => lint_dirs HFile fst snd [] (h_init c)
+    end
+  else lint_dirs HFile fst snd (snd (api_history HFile fst snd (h_init c) (h_edits c))) [].
+
+Definition hist_agrees (c : hist_case) : bool :=
+  no_conflicts (h_init c) && no_conflicts (h_edits c) &&
+  same_violations (agg_report_filter (h_raw c) (hist_dirs c)) (h_obs c).
+
+(* what the last run exported: an entry for every file it linted, the empty object for a file without directives *)
+Definition hist_export_agrees (c : hist_case) : bool :=
+  let linted := match last_opt (h_edits c) with Some f => [f] | None => h_init c end in
+  gomap_same (exported_dirs HFile fst snd linted) (h_export c).
+
+(* the statement of c06_incremental_directives_eq_fresh evaluated on the same data: the handed-on map decides like
+   one run over the final contents *)
+Definition hist_model_consistent (c : hist_case) : bool :=
+  let final := files_after HFile fst (h_init c) (h_edits c) in
+  same_violations (agg_report_filter (h_raw c) (hist_dirs c))
+                  (agg_report_filter (h_raw c) (carry (file_results final))).
+
